@@ -93,6 +93,15 @@ def owed (cfg : Cfg) : HPc → Option (List (Mod × Par))
 
 @[simp] theorem owed_idle (cfg : Cfg) : owed cfg .idle = none := rfl
 @[simp] theorem owed_done (cfg : Cfg) : owed cfg .done = none := rfl
+@[simp] theorem owed_wantAcc (cfg : Cfg) (w m p e n) : owed cfg (.wantAcc w m p e n) = none := rfl
+@[simp] theorem owed_relAcc (cfg : Cfg) (w m p e n) : owed cfg (.relAcc w m p e n) = none := rfl
+@[simp] theorem owed_afterCall (cfg : Cfg) (w m p e n) : owed cfg (afterCall w m p e n) = none := by
+  unfold afterCall; split <;> rfl
+@[simp] theorem owed_afterStart (cfg : Cfg) (r : Req) : owed cfg (afterStart cfg r) = owed cfg (.start r) := by
+  cases r with
+  | rw w m p e => by_cases hk : cfg.rw w m p = .calls <;> simp [afterStart, hk, owed]
+  | activate s => rfl
+  | _ => rfl
 @[simp] theorem owed_wantSub (cfg : Cfg) (r : Req) : owed cfg (.wantSub r) = owed cfg (.start r) := by
   cases r <;> rfl
 @[simp] theorem owed_relSub (cfg : Cfg) (r : Req) : owed cfg (.relSub r) = owed cfg (.start r) := by
@@ -196,6 +205,14 @@ theorem uHeld_holds {pc : UPc} {m p e} (h : uHeld pc = some (m, p, e)) : uHoldsU
 @[simp] theorem hHeld_snapMod (s m ps rest) : hHeld (.snapMod s m ps rest) = none := rfl
 @[simp] theorem hHeld_snapSend (s m p e ps rest) : hHeld (.snapSend s m p e ps rest) = some (m, p, e) := rfl
 @[simp] theorem hHeld_relDisp (r ok) : hHeld (.relDisp r ok) = none := rfl
+@[simp] theorem hHeld_wantAcc (w m p e n) : hHeld (.wantAcc w m p e n) = none := rfl
+@[simp] theorem hHeld_relAcc (w m p e n) : hHeld (.relAcc w m p e n) = none := rfl
+@[simp] theorem hHeld_afterCall (w m p e n) : hHeld (afterCall w m p e n) = none := by
+  unfold afterCall; split <;> rfl
+@[simp] theorem hHeld_afterStart (cfg r) : hHeld (afterStart cfg r) = none := by
+  cases r with
+  | rw w m p e => by_cases hk : cfg.rw w m p = .calls <;> simp [afterStart, hk, hHeld]
+  | _ => rfl
 @[simp] theorem hHeld_rep (r ok) : hHeld (.rep r ok) = none := rfl
 @[simp] theorem hHeld_afterSnap (s l) : hHeld (afterSnap s l) = none := by cases l <;> rfl
 @[simp] theorem hHeld_afterTable (cfg c r) : hHeld (afterTable cfg c r) = none := by
@@ -436,7 +453,7 @@ theorem snapInv_step (cfg : Cfg) (cache) (σ σ' : State) (a : Act) (hL : LockIn
   unfold step at hs
   split at hs
   · exact snapInv_stepH cfg cache σ σ' _ hL hI hs
-  · exact snapInv_stepU cfg cache σ σ' _ _ hL hI hs
+  · exact snapInv_stepU cfg cache σ σ' _ _ hL hI (stepUG_some hs)
 
 theorem snapInv_reach (cfg : Cfg) (hs us cache) (σ : State) (h : Reach cfg (init hs us cache) σ) :
     SnapInv cfg cache σ := by
